@@ -53,6 +53,55 @@ def rand_kv(rng, bspline, pmax=6, maxspans=4):
     return bspline.KnotVector(kv, p)
 
 
+def dense_collocation(knots, p, x):
+    """dense matrix B[k, j] = N_{j,p}(x[k]) by the Cox-de Boor recursion (float64; independent of pyiga's evaluation code;
+    right-continuous, closed at the right end of the domain); the points may come in any order"""
+    knots = np.asarray(knots, dtype=float); x = np.asarray(x, dtype=float).ravel()
+    m = len(knots) - 1
+    N = np.zeros((len(x), m))
+    last = max(i for i in range(m) if knots[i] < knots[i + 1])
+    for i in range(m):
+        if knots[i] < knots[i + 1]:
+            N[:, i] = (knots[i] <= x) & (x < knots[i + 1])
+    N[x >= knots[-1], :] = 0.0
+    N[x >= knots[-1], last] = 1.0
+    for q in range(1, p + 1):
+        Nn = np.zeros((len(x), m - q))
+        for i in range(m - q):
+            d1 = knots[i + q] - knots[i]; d2 = knots[i + q + 1] - knots[i + 1]
+            if d1 > 0:
+                Nn[:, i] += (x - knots[i]) / d1 * N[:, i]
+            if d2 > 0:
+                Nn[:, i] += (knots[i + q + 1] - x) / d2 * N[:, i + 1]
+        N = Nn
+    return N
+
+
+def dense_eval(kvs, coef, nodes):
+    """values of sum_I coef[I] N_I on the tensor grid `nodes` (any order per axis), using dense_collocation only"""
+    vals = np.asarray(coef, dtype=float)
+    for k, (kv, n) in enumerate(zip(kvs, nodes)):
+        vals = np.moveaxis(np.tensordot(dense_collocation(kv.kv, kv.p, n), vals, axes=([1], [k])), 0, k)
+    return vals
+
+
+def reorder_nodes(rng, g):
+    """a non-increasing arrangement of the node array g"""
+    g = np.array(g, dtype=float)
+    if len(g) < 2:
+        return g, 'sorted'
+    how = str(rng.choice(['swap', 'endlast', 'reversed', 'perm']))
+    if how == 'swap':
+        j = int(rng.integers(0, len(g) - 1)); g[[j, j + 1]] = g[[j + 1, j]]
+    elif how == 'endlast':
+        g = np.concatenate((g[1:-1], g[[0, -1]])) if len(g) > 2 else g[::-1].copy()
+    elif how == 'reversed':
+        g = g[::-1].copy()
+    else:
+        g = g[rng.permutation(len(g))]
+    return g, how
+
+
 def cond_inf(C):
     try:
         return float(np.linalg.cond(C, np.inf))
@@ -131,6 +180,9 @@ def run(ctx):
             return None if err <= 4 * (kv.p + 2) * EPS * scale else 'greville: differs from the exact running average by %g' % err
         add('grev %d %s' % (kv.p, plist(kv.kv.tolist(), frac)), c, {'op': 'greville', 'kv': kv.kv.tolist(), 'p': kv.p})
         nodes = g if rng.integers(0, 2) else np.sort(rng.integers(0, 17, size=int(rng.integers(1, 6))) / 16.0 * (kv.kv[-1] - kv.kv[0]) + kv.kv[0])
+        if rng.integers(0, 2):
+            nodes, _how = reorder_nodes(rng, nodes)          # collocation at nodes in non-increasing order
+            ctx.count('collocation node order=' + _how)
         try:
             C = bspline.collocation(kv, nodes).toarray()
         except Exception as ex:
@@ -165,7 +217,7 @@ def run(ctx):
         nd = tuple(kv.numdofs for kv in kvs)
         trail = [(), (), (2,), (2, 2)][int(rng.integers(0, 4))]
         coef = rng.integers(-8, 9, size=nd + trail) / 8.0
-        mode = str(rng.choice(['func', 'array', 'callable', 'shifted', 'repeated', 'physical', 'bsp1d', 'pernodes', 'pernodes', 'pernodes']))
+        mode = str(rng.choice(['func', 'array', 'callable', 'shifted', 'repeated', 'physical', 'bsp1d', 'pernodes', 'pernodes', 'pernodes', 'unsorted', 'unsorted', 'unsorted']))
         if mode == 'bsp1d' and (dim != 1 or trail):
             mode = 'func'
         if mode == 'physical' and (dim != 2 or trail):
@@ -197,14 +249,35 @@ def run(ctx):
                 nodes[k] = g
             sub = str(rng.choice(['array', 'func', 'callable'])) if not trail else str(rng.choice(['array', 'func']))
             ctx.count('interp pernodes data=' + sub)
+        if mode == 'unsorted':
+            # node arrays that are NOT increasing (neighbours swapped, end points last, reversed, permuted), optionally perturbed first;
+            # the data are evaluated by dense_collocation, not by the library
+            hows = []
+            for k in range(dim):
+                g = np.array(nodes[k], dtype=float)
+                if rng.integers(0, 2):
+                    for j in range(len(g) - 1):
+                        if rng.integers(0, 2):
+                            g[j] = g[j] + (nodes[k][j + 1] - nodes[k][j]) * float(rng.integers(1, 4)) / 4.0
+                if k == 0 or rng.integers(0, 2):
+                    g, how = reorder_nodes(rng, g)
+                else:
+                    how = 'sorted'
+                nodes[k] = g; hows.append(how)
+            sub = str(rng.choice(['array', 'array', 'func', 'callable'])) if not trail else str(rng.choice(['array', 'array', 'func']))
+            ctx.count('interp unsorted data=' + sub)
+            for h in hows:
+                ctx.count('interp node order=' + h)
         f = bspline.BSplineFunc(kvs, coef)
         key = (mode, space, tuple((kv.p, kv.kv.tobytes()) for kv in kvs), tuple(np.asarray(n).tobytes() for n in nodes), coef.tobytes())
         ctx.case(key, nontrivial=dim >= 2 or max(kv.p for kv in kvs) >= 2)
         ctx.count('stream=interp'); ctx.count('interp mode=' + mode); ctx.count('dim=%d' % dim); ctx.count('data shape=%s' % (trail,))
-        Cs = [bspline.collocation(kv, n).toarray() for kv, n in zip(kvs, nodes)]
+        Cs = [dense_collocation(kv.kv, kv.p, n) for kv, n in zip(kvs, nodes)] if mode == 'unsorted' else \
+            [bspline.collocation(kv, n).toarray() for kv, n in zip(kvs, nodes)]
         kappa = float(np.prod([cond_inf(C) for C in Cs]))
         N = int(np.prod(nd))
-        replay = {'mode': mode + ('/' + sub if mode == 'pernodes' else ''), 'space': space, 'kvs': [(kv.p, kv.kv.tolist()) for kv in kvs], 'nodes': [np.asarray(n).tolist() for n in nodes], 'coeffs': coef.tolist()}
+        vals_ind = dense_eval(kvs, coef, nodes) if mode == 'unsorted' else None
+        replay = {'mode': mode + ('/' + sub if mode in ('pernodes', 'unsorted') else ''), 'space': space, 'kvs': [(kv.p, kv.kv.tolist()) for kv in kvs], 'nodes': [np.asarray(n).tolist() for n in nodes], 'coeffs': coef.tolist()}
         try:
             if mode == 'func':
                 x = approx.interpolate(kvs, f)
@@ -232,7 +305,13 @@ def run(ctx):
                         out[idx] = f.grid_eval((np.array([ys[idx]]), np.array([xs[idx]])))[0, 0]
                     return out
                 x = approx.interpolate(kvs, fphys, geo=geo)
-            elif mode == 'pernodes' and sub == 'func':
+            elif mode == 'unsorted' and sub == 'array':
+                x = approx.interpolate(kvs, vals_ind, nodes=nodes)
+            elif mode == 'unsorted' and sub == 'callable':
+                def fun(*X):          # coordinates arrive in x, y, z order (x = last direction) as sparse meshgrid arrays
+                    return dense_eval(kvs, coef, [np.ravel(a) for a in reversed(X)])
+                x = approx.interpolate(kvs, fun, nodes=nodes)
+            elif mode in ('pernodes', 'unsorted') and sub == 'func':
                 x = approx.interpolate(kvs, f, nodes=nodes)
             elif mode == 'pernodes' and sub == 'callable':
                 if dim == 1:
@@ -256,8 +335,10 @@ def run(ctx):
         tolv = 32 * sum(kv.p + 1 for kv in kvs) * EPS * max(1.0, float(np.abs(coef).max()))
         add('evalg %s %s' % (plist(zip(kvs, nodes), lambda t: fmt_axis(*t)), fmt_tensor(coef)), close(vals, tolv, 'values on the node grid'),
             {'op': 'evalgrid', **replay})
+        if mode == 'unsorted':
+            vals = vals_ind           # interpolation data for the model and the node-matching oracle: not the library's evaluation
         rline = 'interp %s %s' % (plist(zip(kvs, nodes), lambda t: fmt_axis(*t)), fmt_tensor(vals))
-        if mode in ('repeated', 'shifted', 'pernodes') and any(np.linalg.matrix_rank(C) < C.shape[0] for C in Cs):
+        if mode in ('repeated', 'shifted', 'pernodes', 'unsorted') and any(np.linalg.matrix_rank(C) < C.shape[0] for C in Cs):
             ctx.count('interp non-unisolvent grids')
             def c(ans, tok=tok, x=x):
                 if ans != 'singular':
@@ -277,7 +358,7 @@ def run(ctx):
         if x.shape != coef.shape or not np.all(np.abs(x - coef) <= tol):
             ctx.violation('interp-reproduce', 'interpolate does not reproduce a function of the space (max error %g, bound %g)' % (
                 np.abs(x - coef).max() if x.shape == coef.shape else np.inf, tol), replay, True)
-        elif np.abs(bspline.BSplineFunc(kvs, x).grid_eval(nodes) - vals).max() > tol:
+        elif np.abs((dense_eval(kvs, x, nodes) if mode == 'unsorted' else bspline.BSplineFunc(kvs, x).grid_eval(nodes)) - vals).max() > tol:
             ctx.violation('interp-nodes', 'interpolant does not match the data at the nodes', replay, True)
 
     # ------------------------------------------------------------ data-shape handling: tuple-valued data with mixed component dtypes
@@ -514,6 +595,101 @@ def run(ctx):
                     np.abs(xa - cref).max() if xa.shape == cref.shape else np.inf, np.abs(xa - xb).max() if xa.shape == xb.shape else np.inf, tol), replay, True)
         except Exception as ex:
             ctx.violation('l2-raise', 'project_L2(f_physical=True) raised %s' % type(ex).__name__, dict(replay, error=str(ex)[:200]), True)
+    # ------------------------------------------------------------ 3-D project_L2 under full affine maps (coupled Jacobian)
+    n3 = 8 if quick else 60
+    for it in range(n3):
+        kvs = tuple(bspline.make_knots(int(rng.integers(1, 3)), 0.0, 1.0, int(rng.integers(1, 3))) for _ in range(3))
+        while True:
+            Amat = rng.choice([-3, -2, -1, 1, 2, 3], size=(3, 3)).astype(float) / 2.0      # dense: every entry non-zero
+            if abs(np.linalg.det(Amat)) >= 0.5:
+                break
+        bvec = rng.integers(-4, 5, size=3) / 2.0
+        geo = geometry.unit_cube().apply_matrix(Amat).translate(tuple(bvec))
+        # the map, read off the geometry itself at the corners: G(xi) = G0 + xi0*d0 + xi1*d1 + xi2*d2 (xi0 = first direction)
+        V = geo.grid_eval(([0.0, 1.0],) * 3)
+        G0, d0, d1, d2 = V[0, 0, 0], V[1, 0, 0] - V[0, 0, 0], V[0, 1, 0] - V[0, 0, 0], V[0, 0, 1] - V[0, 0, 0]
+        nd = tuple(kv.numdofs for kv in kvs)
+        coef = rng.integers(-8, 9, size=nd) / 8.0
+        f = bspline.BSplineFunc(kvs, coef)
+        r = min(kv.p for kv in kvs)
+        mons = [(i, j, k) for i in range(r + 1) for j in range(r + 1 - i) for k in range(r + 1 - i - j)]      # total degree <= r
+        cf = {m: float(rng.integers(-3, 4)) for m in mons}
+        fphys = lambda x, y, z, cf=cf: sum(c * x ** m[0] * y ** m[1] * z ** m[2] for m, c in cf.items())
+        def pull(X, Y, Z, fphys=fphys, G0=G0, d0=d0, d1=d1, d2=d2):      # callable in parameter coordinates, x = LAST direction
+            P = [G0[c] + Z * d0[c] + Y * d1[c] + X * d2[c] for c in range(3)]
+            return fphys(*P)
+        replay = {'mode': 'l2-3d-affine', 'kvs': [(kv.p, kv.kv.tolist()) for kv in kvs], 'matrix': Amat.tolist(), 'offset': bvec.tolist(),
+                  'coeffs': coef.tolist(), 'poly_xyz': {str(m): c for m, c in cf.items()}}
+        ctx.case(('l2-3d', tuple((kv.p, kv.kv.tobytes()) for kv in kvs), Amat.tobytes(), coef.tobytes())); ctx.count('stream=l2-3d-affine(cg)')
+        try:
+            M = assemble.mass(kvs, geo=geo).toarray()
+            minv = float(np.linalg.norm(np.linalg.inv(M), 2)); nM = float(np.linalg.norm(M, 2))
+            N = M.shape[0]
+            def tol_for(b, sc):
+                return minv * (10 * max(1e-12 * float(np.linalg.norm(b)), 1e-12) + 1024 * N * EPS * nM * sc)
+            # (a) an element of the space given in parameter coordinates
+            xa = np.asarray(approx.project_L2(kvs, f, geo=geo))
+            ba = assemble.inner_products(kvs, f, geo=geo).ravel()
+            ta = tol_for(ba, max(1.0, float(np.abs(coef).max())))
+            # independent reference for the load vector: |det A| * (C^T W f) with dense_collocation and numpy Gauss rules
+            from numpy.polynomial.legendre import leggauss
+            nq = max(kv.p for kv in kvs) + 1
+            qs = []
+            for kv in kvs:
+                gx, gw = leggauss(nq); a_, b_ = kv.mesh[:-1, None], kv.mesh[1:, None]
+                qs.append((((a_ + b_) / 2 + (b_ - a_) / 2 * gx).ravel(), ((b_ - a_) / 2 * gw).ravel()))
+            Cq = [dense_collocation(kv.kv, kv.p, q[0]) for kv, q in zip(kvs, qs)]
+            fq = dense_eval(kvs, coef, [q[0] for q in qs])
+            bref = fq
+            for k in range(3):
+                bref = np.moveaxis(np.tensordot((Cq[k].T * qs[k][1]), bref, axes=([1], [k])), 0, k)
+            bref = abs(np.linalg.det(Amat)) * bref.ravel()
+            if np.abs(ba - bref).max() > 4096 * N * EPS * max(1.0, float(np.abs(bref).max())):
+                ctx.violation('l2-3d-loadvector', 'inner_products(kvs, f, geo=full affine 3-D map) differs from |det DG| * C^T W f (independent quadrature): max diff %g' % (
+                    np.abs(ba - bref).max()), replay, True)
+            if xa.shape != coef.shape or np.abs(xa - coef).max() > ta:
+                ctx.violation('l2-3d-reproduce', 'project_L2 under a full affine 3-D map does not reproduce an element of the space: error %g > bound %g' % (
+                    np.abs(xa - coef).max() if xa.shape == coef.shape else np.inf, ta), replay, True)
+            # (b) polynomial data in physical coordinates vs its pull-back
+            cref = np.asarray(approx.interpolate(kvs, pull))
+            xb = np.asarray(approx.project_L2(kvs, fphys, f_physical=True, geo=geo))
+            xc = np.asarray(approx.project_L2(kvs, pull, geo=geo))
+            bb = assemble.inner_products(kvs, pull, geo=geo).ravel()
+            kap = float(np.prod([cond_inf(dense_collocation(kv.kv, kv.p, kv.greville())) for kv in kvs]))
+            sc = max(1.0, float(np.abs(cref).max()))
+            tb = tol_for(bb, sc) + 64.0 * N * EPS * kap * sc
+            if xb.shape != cref.shape or np.abs(xb - cref).max() > tb or np.abs(xc - cref).max() > tb:
+                ctx.violation('l2-3d-physical', 'project_L2 under a full affine 3-D map: |phys - ref| = %g, |pull-back - ref| = %g, bound %g' % (
+                    np.abs(xb - cref).max() if xb.shape == cref.shape else np.inf, np.abs(xc - cref).max() if xc.shape == cref.shape else np.inf, tb), replay, True)
+        except Exception as ex:
+            ctx.violation('l2-raise', 'project_L2 with a 3-D affine geometry raised %s' % type(ex).__name__, dict(replay, error=str(ex)[:200]), True)
+    # ------------------------------------------------------------ a univariate solve with more than 4096 right-hand-side columns
+    for it in range(1 if quick else 4):
+        n1 = int(rng.integers(66, 72)); n2 = int(rng.integers(66, 72))
+        kvs = (bspline.make_knots(1, 0.0, 1.0, int(rng.integers(3, 6))), bspline.make_knots(2, 0.0, 1.0, n1), bspline.make_knots(int(rng.integers(1, 3)), 0.0, 1.0, n2))
+        nd = tuple(kv.numdofs for kv in kvs)
+        coef = rng.integers(-8, 9, size=nd) / 8.0
+        replay = {'mode': 'many-columns', 'kvs': [(kv.p, kv.numdofs) for kv in kvs], 'columns_seen_by_first_axis': int(nd[1] * nd[2]), 'seed_note': 'coefficients: rng.integers(-8,9)/8'}
+        ctx.case(('manycols', nd, coef.tobytes())); ctx.count('stream=many-columns(>4096)')
+        try:
+            nodes = [kv.greville() for kv in kvs]
+            vals = dense_eval(kvs, coef, nodes)
+            kap = float(np.prod([cond_inf(dense_collocation(kv.kv, kv.p, n)) for kv, n in zip(kvs, nodes)]))
+            tol = 64.0 * coef.size * EPS * kap
+            x = np.asarray(approx.interpolate(kvs, vals, nodes=nodes))
+            if x.shape != coef.shape or not np.all(np.isfinite(x)) or np.abs(x - coef).max() > tol:
+                bad = np.argwhere(~(np.abs(x - coef) <= tol)) if x.shape == coef.shape else []
+                ctx.violation('interp-many-columns', 'interpolate on a %dx%dx%d space (first-axis solve sees %d columns) does not reproduce the coefficients: %d entries off, max error %g > %g' % (
+                    nd + (nd[1] * nd[2], len(bad), np.nanmax(np.abs(x - coef)) if x.shape == coef.shape else np.inf, tol)), dict(replay, first_bad_index=bad[0].tolist() if len(bad) else None), True)
+            f = bspline.BSplineFunc(kvs, coef)
+            xl = np.asarray(approx.project_L2(kvs, f))
+            km = float(np.prod([cond_inf(assemble.mass(kv).toarray()) for kv in kvs]))
+            tl = 256.0 * coef.size * EPS * km
+            if xl.shape != coef.shape or not np.all(np.isfinite(xl)) or np.abs(xl - coef).max() > tl:
+                ctx.violation('l2-many-columns', 'project_L2 on a %dx%dx%d space does not reproduce the coefficients: max error %g > %g' % (
+                    nd + (np.nanmax(np.abs(xl - coef)) if xl.shape == coef.shape else np.inf, tl)), replay, True)
+        except Exception as ex:
+            ctx.violation('interp-many-columns', 'large tensor-product space raised %s: %s' % (type(ex).__name__, str(ex)[:150]), replay, True)
     nh = 8 if quick else 60
     import sys
     sys.stdout.flush(); sys.stderr.flush()
